@@ -659,6 +659,18 @@ pub fn c17(tier: Tier) -> i32 {
                     }
                 }
             }
+            // the signature with something added in front of it, behind it, or in the middle (white space above all: what a
+            // lenient reader would strip)
+            for extra in [" ", "\n", "\t", "\r\n", "\u{a0}", "=", "y", "\0"] {
+                for s2 in [format!("{extra}{sig}"), format!("{sig}{extra}"), format!("{extra}{sig}{extra}"), format!("{}{extra}{}", &sig[..sig.len() / 2], &sig[sig.len() / 2..])] {
+                    sig_evals += 1;
+                    match std::panic::catch_unwind(|| (cryptography::verify(m, &s2, pk), cryptography::recover_pk(m, &s2).ok() == Some(*pk))) {
+                        Ok((false, false)) => {}
+                        Ok(_) => run.violation("sig:padded-signature-verifies", format!("key #{ki} msg #{mi} signature padded with {extra:?}: {s2:?}"), json!({"engine": "H17"}), 1),
+                        Err(_) => run.violation("sig:verify-panics", format!("key #{ki} msg #{mi} padded with {extra:?}"), json!({"engine": "H17"}), 1),
+                    }
+                }
+            }
             for cut in 0..chars.len() {
                 let s2: String = chars[..cut].iter().collect();
                 sig_evals += 1;
@@ -673,7 +685,7 @@ pub fn c17(tier: Tier) -> i32 {
     run.set("evaluations", json!(evals + sig_evals));
     run.set("distinct_nontrivial", json!(distinct.len()));
     run.set("exhaustive", json!(true));
-    run.set("rule", json!("finite grid, fully enumerated: transactions = all shapes with 1-2 inputs, 1-2 outputs, listed script lengths, witness on/off, 3 values; ids incl. two sharing 31 bytes; for each (t,k): round trip, every other id, single-bit flips, truncations/extensions by 1..16; signatures: 4 keys x 6 messages, recovery, cross-key, every 1-byte message change, every single-character substitution and every truncation of the signature. distinct_nontrivial counts distinct ciphertexts + distinct signatures produced"));
+    run.set("rule", json!("finite grid, fully enumerated: transactions = all shapes with 1-2 inputs, 1-2 outputs, listed script lengths, witness on/off, 3 values; ids incl. two sharing 31 bytes; for each (t,k): round trip, every other id, single-bit flips, truncations/extensions by 1..16; signatures: 4 keys x 6 messages, recovery, cross-key, every 1-byte message change, every single-character substitution, every truncation of the signature, and the signature padded (white space, other characters) in front, behind, on both sides and in the middle. distinct_nontrivial counts distinct ciphertexts + distinct signatures produced"));
     run.set("samples", json!([
         {"tx_shapes": txs.len(), "ids": ids.len()},
         {"example_ciphertext_len": cryptography::encrypt(&txs[0], &ids[0]).unwrap().len()},
